@@ -260,10 +260,17 @@ def _recursing_frame(exc: BaseException) -> str:
 INNER_ENTRY = frozenset(['unpack_attribute', 'unpack_nlri', 'unpack_capability', 'make_generic'])
 
 
+class WorkBudget(BaseException):
+    """raised from the profile hook when a decode runs far past its work bound (a loop that does not end); not an Exception
+    so that no `except Exception` in the code under test can swallow it"""
+
+
 class Meter:
     """counts Python 'call' events, the maximum stack depth, and normal returns of the inner decoder entry points"""
 
-    def __init__(self) -> None:
+    def __init__(self, budget: int = 0) -> None:
+        self.budget = budget  # calls + builtin calls after which the run is abandoned (0 = never)
+        self.events = 0
         self.calls = 0
         self.depth = 0
         self.max_depth = 0
@@ -282,8 +289,15 @@ class Meter:
         self.deep = names.most_common(1)[0][0] if names else 'outside-exabgp'
 
     def _profile(self, frame, event, arg) -> None:
-        if event == 'call':
+        if event == 'c_call':
+            self.events += 1
+            if self.budget and self.events > self.budget:
+                raise WorkBudget()
+        elif event == 'call':
             self.calls += 1
+            self.events += 1
+            if self.budget and self.events > self.budget:
+                raise WorkBudget()
             self.depth += 1
             if self.depth > self.max_depth:
                 self.max_depth = self.depth
@@ -304,12 +318,16 @@ class Meter:
 
 
 def measured(msg_type: int, body: bytes, negotiated) -> tuple:
-    meter = Meter()
-    outcome = meter.run(decode_and_force, msg_type, body, negotiated)
+    """(outcome, meter); a run that spends six times its work bound is abandoned: that is how a loop that never ends is reported"""
+    meter = Meter(budget=6 * (COST_A + COST_B * len(body)))
+    try:
+        outcome = meter.run(decode_and_force, msg_type, body, negotiated)
+    except WorkBudget:
+        outcome = ('violation', 'cost:calls-superlinear', f'abandoned after {meter.events} call events for a {len(body)} byte body (bound {COST_A}+{COST_B}*len Python calls)')
     return outcome, meter
 
 
-# cost bounds: fitted on the qa seed corpus (see props/c03.py fit_report), 10x slack on both constants
+# cost bounds (defined before use at call time): fitted on the qa seed corpus (see props/c03.py fit_report), 10x slack on both constants
 COST_A = 10000
 COST_B = 600
 DEPTH_MAX = 120
